@@ -24,6 +24,7 @@ type Terms struct {
 	index map[string]*Affine
 
 	leafMemo map[string]bool
+	quot     map[string]quotient
 }
 
 // PureNote is recorded in every evidence file.
@@ -1009,5 +1010,22 @@ func (t *Terms) opaque(v ssa.Value) *Affine {
 	if isUnsigned(v.Type()) || strings.HasPrefix(s, "len(") || strings.HasPrefix(s, "cap(") {
 		r.NonNeg[s] = true
 	}
+	// remember integer quotients by a positive constant: the prover knows k·(x/k) ≤ x ≤ k·(x/k)+k−1 for x ≥ 0
+	if b, ok := v.(*ssa.BinOp); ok && b.Op == token.QUO && isIntegral(b.Type()) {
+		if c, isC := b.Y.(*ssa.Const); isC && c.Value != nil {
+			if k, exact := constant.Int64Val(c.Value); exact && k > 0 {
+				if t.quot == nil {
+					t.quot = map[string]quotient{}
+				}
+				t.quot[s] = quotient{X: b.X, K: k}
+			}
+		}
+	}
 	return r
+}
+
+// quotient is an opaque term x/k with constant k > 0.
+type quotient struct {
+	X ssa.Value
+	K int64
 }
